@@ -104,3 +104,43 @@ func VerifC08_Mismatch() {
 	vrtBytesEqual(vrt.ReadFile(dp), dimg, "C08 layout mismatch writes nothing")
 	vrtBytesEqual(vrt.ReadFile(sp), simg, "C08 source untouched on mismatch")
 }
+
+// VerifC08_Glob: with a glob pattern every matched source file is copied to the same relative
+// path under the destination base (missing destinations are created).
+func VerifC08_Glob() {
+	h := vrtCmdHeader([]string{"1s:2s"}, wt.Sum, 0.5)
+	now := vrtCmdInstant(h, "now")
+	vrtCmdAssumeClock(h, now)
+	vrt.SetClock(uint32(now))
+	imgA, _ := vrtCmdInvImage(h, "a", now)
+	imgB, _ := vrtCmdInvImage(h, "b", now)
+	pa := vrt.TempFile("src/x/a.wsp", imgA)
+	pb := vrt.TempFile("src/x/b.wsp", imgB)
+	sbase := filepath.Dir(filepath.Dir(pa))
+	da := vrt.NoFile("dst/x/a.wsp")
+	db := vrt.NoFile("dst/x/b.wsp")
+	dbase := filepath.Dir(filepath.Dir(da))
+	c := &CopyCommand{SrcBase: sbase, DestBase: dbase, SrcRelPath: "x/*.wsp", ArchiveID: ArchiveIDAll,
+		AggregationMethod: wt.Sum, XFilesFactor: 0.5, ArchiveInfoList: h.ArchiveInfoList()}
+	vrt.Reach("pre")
+	err := c.execute(vrt.Writer())
+	vrt.Assert(err == nil, "C08.glob copy of every matched file succeeds")
+	for i, sp := range []string{pa, pb} {
+		dp := []string{da, db}[i]
+		vrt.Assert(vrt.FileExists(dp), "C08.glob every matched file exists under the destination base at the same relative path")
+		sdb, e1 := wt.Open(sp)
+		vrt.Assume(e1 == nil)
+		ddb, e2 := wt.Open(dp)
+		vrt.Assert(e2 == nil, "C08.glob destination is a valid whisper file")
+		sts, _ := sdb.FetchFromArchive(0, 0, now, now)
+		dts, e3 := ddb.FetchFromArchive(0, 0, now, now)
+		vrt.Assert(e3 == nil, "C08.glob destination fetch succeeds")
+		for k, v := range sts.Values() {
+			if !v.IsNaN() {
+				vrt.Assert(vrtSameValue(dts.Values()[k], v), "C08.glob each destination holds its own source's values")
+			}
+		}
+		_ = sdb.Close()
+		_ = ddb.Close()
+	}
+}
